@@ -270,6 +270,9 @@ def run(report, p):
         for (txt, lab), tast in best or []:
             if txt.endswith(".path == '.'"):
                 continue
+            # `X` is true  ==  `X is None` is false, for the record objects selected here (no __bool__ / __len__)
+            if txt.endswith(" is None") and lab == "F":
+                txt, lab = txt[: -len(" is None")], "T"
             nm = next((x for x in ast.walk(tast) if isinstance(x, ast.Name) and x.id == txt), None)
             if nm is not None and lab == "T" and any(any(is_call(x, "find_media_hash_for_path") or is_call(x, "find_or_create_media_hash_for_path") for x in subterms(o)) for o in pr.origins(nm, cf)):
                 continue
